@@ -46,6 +46,9 @@ CLAIMED['C06'] = ("runtime monitor: encoding/json as independent syntax/shape re
 CLAIMED['C07'] = ("reference-model monitor: exact rational snapping oracle for decode(encode(g,p)), independent varint-level TWKB reader for size/bbox/id-list headers, header-only readers vs full decode, closed-world error monitor on MarshalTWKB",
   "Exploration by runtime monitoring: thousands of valid geometries per run (7 types x 4 coordinate types, empty members, nested collections, ordinates k/10^q) are encoded under 8-16 draws of precisions (-8..7 / 0..7) and all 16 option subsets; the bytes are decoded by the library and by an independent reader and every ordinate is compared with the exactly rounded value; rejection families drive out-of-range precisions and mismatched ID lists.",
   "half-way rounding cases within the stated margin accept either neighbour; rings that collapse under coarse precision are skipped and counted; ID lists are not generated where the format cannot express them", "DESIGN.md §3 C07")
+CLAIMED['C08'] = ("process-level runtime monitoring: every decoder entry point is driven with enumerated corruptions inside sacrificial worker processes (RLIMIT_AS ceiling, journal of the input before each call); monitors: recovered panics, worker death attributed by the driver, cumulative heap-allocation delta per call, Validate() of what is returned, re-encoding; thorough tier adds an AddressSanitizer build",
+  "Fault enumeration by runtime monitoring: for a corpus of valid encodings of every type in WKB/TWKB/WKT/GeoJSON the check enumerates every truncation, every byte value at header/type/count/flag positions (field maps from independent codecs), boundary values elsewhere, every 4-byte count and varint overwritten with the extreme values, splices, PRNG byte strings up to 64 KiB, token mutations and deep nesting (about 0.86 M inputs / 7 M decoder calls in quick). Holds for the inputs enumerated.",
+  "allocation bound 64 MiB + 8192*len fixed in advance; time is not judged; the address-space limit is 8 GiB (not combinable with the ASan variant, where the allocation monitor is the backstop)", "DESIGN.md §3 C08")
 REASONS = {}
 hooks_commits = subprocess.run(['git','-C','/repo','log','--format=%h %s'],capture_output=True,text=True).stdout.splitlines()
 hook_commits = [l.split()[0] for l in hooks_commits if l.split(' ',1)[1].startswith('verif hook')]
@@ -61,7 +64,7 @@ for p in props:
           "evidence_file": "/verif/evidence/%s.json" % i,
           "replay_cmd_template": "./check --replay {path}",
           "engine": "vmon",
-          "level_claimed": {"category": "exploration", "text": text, "design_ref": ref},
+          "level_claimed": {"category": ("fault_enumeration" if i == "C08" else "exploration"), "text": text, "design_ref": ref},
           "level_note": note,
           "technique": tech,
         })
